@@ -354,13 +354,25 @@ def known_site_matches(k, row, msgs, res):
     return all(part in blob for part in site.split('+'))
 
 
-REPLAY = {
-    # V row -> K row asked for a concrete input when the V row fails
+# V row -> K row (the same function in place) asked for a concrete input when the V row fails
+_TWIN_FN = {
+    'trace': 'K.step.trace', 'trace_weak': 'K.step.trace', 'make_gray_again': 'K.step.make_gray_again',
+    'backward_barrier': 'K.step.backward_barrier', 'backward_barrier_weak': 'K.step.backward_barrier',
+    'forward_barrier': 'K.step.forward_barrier', 'forward_barrier_weak': 'K.step.forward_barrier',
+    'upgrade': 'K.step.upgrade', 'resurrect': 'K.step.resurrect', 'root_barrier': 'K.step.root_barrier', 'gray_remaining': 'K.step.root_barrier',
+    'link': 'K.step.link', 'mark_one': 'K.step.mark_one', 'sweep_one': 'K.step.sweep_one', 'drop': 'K.drop.context',
 }
 
 
 def replay_row(r):
-    return REPLAY.get(r)
+    parts = r.split('.')
+    if len(parts) >= 3 and parts[0] == 'V' and parts[1] == 'context':
+        return _TWIN_FN.get(parts[2])
+    if len(parts) >= 3 and parts[0] == 'V' and parts[1] == 'metrics':
+        return 'K.metrics.counter_frames'
+    if len(parts) >= 3 and parts[0] == 'V' and parts[1] == 'slots':
+        return 'K.dynroot.handle_lifecycle'
+    return None
 
 
 def level(pid):
